@@ -337,6 +337,8 @@ class SeqModel:
         elif k == 'reset':
             self.state[r] = 'Init'
             self.pc[r] = 0
+            # "... or return the recorded terminal value until reset()"
+            self.terminal[r] = ('none',)
 
 
 def run_seq(case):
